@@ -188,15 +188,38 @@ def summarize(prog, fn, models=None, opaque=()):
         ps = []
         for conds, leaf in paths(tree):
             if isinstance(leaf, tuple) and leaf and leaf[0] == "exit":
-                kind = "exit:normal" if leaf[1] == ne and classify_exit(fn, leaf[1], body) != "error" else "exit:" + classify_exit(fn, leaf[1], body)
+                cls = classify_exit(fn, leaf[1], body)
+                if cls != "error" and len(leaf) >= 3 and leaf[2] is not None:
+                    # semantic fallback (inlined helpers share their continuation blocks with the success path): the value the
+                    # function returns along this way out is an error on every branch
+                    lv = [x for x in sym._leaves(simplify_under(leaf[2], conds), []) if x != ("unreachable",)]
+                    if lv and all(isinstance(x, tuple) and x[0] == "adt" and x[1] == "core::result::Result" and x[2] == "Err" for x in lv):
+                        cls = "error"
+                kind = "exit:normal" if leaf[1] == ne and cls != "error" else "exit:" + cls
                 ps.append((conds, kind, leaf[1] if len(leaf) < 3 or leaf[2] is None else ("ret", leaf[1], simplify_under(leaf[2], conds))))
             elif isinstance(leaf, tuple) and leaf and leaf[0] == "next":
                 vals = {l: simplify_under(v, conds) for l, v in zip(tracked, leaf[1])}
                 ps.append((conds, "next", vals))
+            elif isinstance(leaf, tuple) and leaf and leaf[0] == "adt" and leaf[1] == "core::result::Result" and leaf[2] == "Err":
+                ps.append((conds, "exit:error", ("ret", None, leaf)))      # an inner loop's error arm: the function returns that error
             else:
                 ps.append((conds, "return", leaf))
+        countdown = None
+        if it_local is None:
+            # `let mut k = n; while k > 0 { ..; k -= 1 }`: a counted loop without an index
+            for l in tracked:
+                ty = fn.local_ty(l)
+                if ty not in sym.INT_TYS or sym.ty_range(ty)[0] != 0:
+                    continue
+                L = P("L%d" % l)
+                norm = [c for c, k, v in ps if k == "exit:normal"]
+                nxt = [v for c, k, v in ps if k == "next"]
+                if norm and nxt and all(c == ((L, ty, ((0, 0),)),) for c in norm) and all(v[l] == sym.binop("Sub", L, sym.C(1, ty), ty) for v in nxt):
+                    countdown = l
+                    N, start = e[l], sym.C(0, ty)
+                    break
         out.append({"head": h, "body": body, "depth": depth, "entry": e, "tracked": tracked, "iter": it_local, "I": I, "N": N, "start": start,
-                    "paths": ps, "where": fn.where(fn.term(h)["loc"])})
+                    "countdown": countdown, "paths": ps, "where": fn.where(fn.term(h)["loc"])})
     return out
 
 
